@@ -96,8 +96,7 @@ class HostKeys(MutableMapping):
                 except SSHException:
                     continue
                 if entry is not None:
-                    _hostnames = entry.hostnames
-                    for h in _hostnames:
+                    for h in list(entry.hostnames):
                         if self.check(h, entry.key):
                             entry.hostnames.remove(h)
                     if len(entry.hostnames):
